@@ -154,8 +154,9 @@ func leafBytes(v reflect.Value) []byte {
 		binary.LittleEndian.PutUint64(b, v.Uint())
 		return b
 	case reflect.Float32:
+		// through the interface, not v.Float(): widening to float64 would quiet signalling NaNs
 		b := make([]byte, 4)
-		binary.LittleEndian.PutUint32(b, math.Float32bits(float32(v.Float())))
+		binary.LittleEndian.PutUint32(b, math.Float32bits(v.Interface().(float32)))
 		return b
 	case reflect.Float64:
 		b := make([]byte, 8)
@@ -375,4 +376,35 @@ func project(v reflect.Value, chain []*Node) string {
 		return "[" + strings.Join(p, ",") + "]"
 	}
 	return in(f)
+}
+
+// Scramble overwrites, in place, everything reachable from v through pointers and slices
+// (the memory a writer might have kept a reference to after Add).
+func Scramble(v reflect.Value) {
+	switch v.Kind() {
+	case reflect.Ptr:
+		if !v.IsNil() {
+			Scramble(v.Elem())
+		}
+	case reflect.Slice:
+		for i := 0; i < v.Len(); i++ {
+			Scramble(v.Index(i))
+		}
+	case reflect.Struct:
+		for i := 0; i < v.NumField(); i++ {
+			if v.Field(i).CanSet() {
+				Scramble(v.Field(i))
+			}
+		}
+	case reflect.Int32, reflect.Int64:
+		v.SetInt(v.Int() ^ 0x5a5a5a5a)
+	case reflect.Uint32, reflect.Uint64:
+		v.SetUint(v.Uint() ^ 0x5a5a5a5a)
+	case reflect.Float32, reflect.Float64:
+		v.SetFloat(v.Float() + 12345.5)
+	case reflect.Bool:
+		v.SetBool(!v.Bool())
+	case reflect.String:
+		v.SetString("MUTATED" + v.String())
+	}
 }
